@@ -174,7 +174,13 @@ def run_cases(ctx, mod, cases):
     use_alarm = hasattr(signal, "setitimer")
     if use_alarm:
         signal.signal(signal.SIGALRM, _alarm)
+    timeouts = 0
+    max_timeouts = int(os.environ.get("VERIF_MAX_TIMEOUTS", "3"))
     for case in cases:
+        if timeouts >= max_timeouts:
+            # bounded run: a tree on which case after case hangs must not keep the check busy for hours
+            ctx.inconc("run cut short: %d cases hit the watchdog; the remaining cases were not driven" % timeouts)
+            break
         ctx.case = case
         ctx.evaluations += 1
         try:
@@ -182,6 +188,7 @@ def run_cases(ctx, mod, cases):
                 signal.setitimer(signal.ITIMER_REAL, limit)
             mod.run(ctx, case)
         except CaseTimeout:
+            timeouts += 1
             path = write_replay(getattr(mod, "PROP", "C??"), {"clause": "watchdog.timeout", "case": case, "detail": {"limit_s": limit}}, None, None)
             ctx.inconc("watchdog: a case did not finish within %.0f s (case kept in the evidence and in %s)" % (limit, path))
             ctx.sample({"timed_out_case": case}, limit=6)
